@@ -35,6 +35,8 @@ def K(name):
         return {"vol": fmt(4300 * 4096, bps=4096, bpc=4096, fats=2, root=128, ft=16)}
     if name == "K4b":  # FAT16, 1024-byte sectors, 4 sectors per cluster
         return {"vol": fmt(4200 * 4096, bps=1024, bpc=4096, fats=1, root=64, ft=16)}
+    if name == "K6":  # FAT16 with the largest cluster the format allows for 512-byte sectors: 128 sectors = 64 KiB (does not fit 16 bits)
+        return {"vol": fmt((4200 * 128 + 700) * 512, bpc=65536, fats=2, root=512, ft=16), "cell": 8192}
     if name == "K5":  # FAT32 512/1 (>= 65525 clusters), 2 FATs
         return {"vol": fmt(67000 * 512, bpc=512, fats=2, ft=32)}
     if name == "K5b":  # FAT32 with 1 FAT and 1024-byte clusters
@@ -353,6 +355,15 @@ def io_program(rng, pid, cfg, cs, n_ops, n_files=2, max_clusters=3):
     ops.append({"op": "stats"})
     ops.append({"op": "unmount"})
     return {"id": pid, "cfg": cfg, "ops": ops, "origin": "random:io"}
+
+
+def scaled(prog, unit):
+    """a program generated in units of `unit` bytes (cluster size given as cs // unit): lengths and offsets multiplied out"""
+    for o in prog["ops"]:
+        for k in ("len", "off"):
+            if k in o:
+                o[k] *= unit
+    return prog
 
 
 def reuse_program(rng, pid, cfg, cs):
